@@ -4,7 +4,7 @@
 
   All theorems quantify over EVERY destination (any length, any prior contents).
 -/
-import Rtp.Proofs.PacketRtWrite
+import Rtp.Proofs.PacketRtPacket
 import Rtp.Pred.C04
 namespace Rtp.Props.C04
 open Rtp Rtp.Model Rtp.Pred.C01 Rtp.Proofs.PacketRt
@@ -100,6 +100,47 @@ theorem c04_pred (p : Packet) (dst : Bytes) : Pred.C04.pred p dst (Pred.C04.mode
   · rfl
   · simpa using c04_to p h dst
 
+/-- end to end with C01: whatever the destination held, decoding the first n bytes that MarshalTo
+    reports gives the packet back (into any receiver). -/
+theorem c04_then_unmarshal (p : Packet) (hwf : wfP p = true) (dst : Bytes)
+    (h : pktMarshalSize p ≤ dst.length) (r : Packet) :
+    ∃ d n q, pktMarshalTo p dst = .ok (d, n) ∧ pktUnmarshal r (d.take n) = .ok q ∧ canonP q = canonP p := by
+  refine ⟨_, _, ⟨decoded r.header p.header, p.payload, p.paddingSize⟩, pktMarshalTo_wf p hwf dst h, ?_, ?_⟩
+  · rw [← pktWire_length p hwf, List.take_left]
+    exact pktUnmarshal_wire p hwf r
+  · simp [canonP, canonH_decoded]
+
+/-- in the model, MarshalTo never panics — for ANY packet description and destination (this relies on
+    the repaired `Header.MarshalSize`/`MarshalTo` for a legacy profile without an element,
+    DESIGN §7 row 4) -/
+theorem c04_header_no_panic (h : Header) (dst : Bytes) : hdrMarshalTo h dst ≠ .panic := by
+  unfold hdrMarshalTo
+  split
+  · simp
+  · split
+    · have : extBodyBytes h ≠ .panic := by
+        unfold extBodyBytes
+        split
+        · simp
+        · split
+          · simp
+          · split
+            · simp
+            · split <;> simp
+      split
+      · simp
+      · next hp => exact absurd hp this
+      · simp
+    · simp
+
+theorem c04_no_panic (p : Packet) (dst : Bytes) : pktMarshalTo p dst ≠ .panic := by
+  unfold pktMarshalTo
+  split
+  · simp
+  · split
+    · simp
+    · next hp => exact absurd hp (c04_header_no_panic _ _)
+    · split <;> simp
 /-! ### non-vacuity: the hypotheses are met by non-trivial packets, and the conclusion is the
     expected bytes (DESIGN §7 row 3: padding 4 after payload [1,2], destination all 0xEE) -/
 
